@@ -6,7 +6,7 @@
     at a directory boundary, or cut elsewhere ([Some (n, t)]). The same states arise from process
     death and from a reported ENOSPC/EFBIG, which the runner swallows. *)
 From Coq Require Import List Bool Arith.
-From Memento Require Import Storage.Crash Storage.CrashProofs Gen.SourceFacts Gen.FactsOK.
+From Memento Require Import Storage.Crash Storage.CrashProofs Gen.SourceFacts Gen.FactsCrash.
 Import ListNotations.
 
 (** For every configuration whose (finite, computed) reachable set is closed and good: after
